@@ -94,20 +94,20 @@ def header(backend: str) -> str:
         for t in qgen.COLLS.values():
             h += f"namespace {ns} {{ struct {t}Container : std::vector<const {t}*> {{}}; }}\n"
         h += r"""
+struct StatusCode { enum V { SUCCESS, FAILURE } v; StatusCode(V x) : v(x) {} bool isSuccess() const { return v == SUCCESS; } bool isFailure() const { return v != SUCCESS; } explicit operator bool() const { return v == SUCCESS; } };
 struct EvtStore {
   std::map<std::string, std::pair<std::string, const void*>> banks;
-  template <class T> bool retrieve(const T*& out, const std::string& bank) {
+  template <class T> StatusCode retrieve(const T*& out, const std::string& bank) {
     printf("RETRIEVE %s\n", bank.c_str());
     auto it = banks.find(bank);
-    if (it == banks.end()) return false;
-    out = static_cast<const T*>(it->second.second); return true;
+    if (it == banks.end()) return StatusCode::FAILURE;
+    out = static_cast<const T*>(it->second.second); return StatusCode::SUCCESS;
   }
 };
 static EvtStore g_store;
 static EvtStore* evtStore() { return &g_store; }
 static bool book(const TTree& t) { g_trees[t.name] = new TTree(t); return true; }
 static TTree* tree(const char* n) { return g_trees.at(n); }
-struct StatusCode { enum V { SUCCESS, FAILURE } v; StatusCode(V x) : v(x) {} };
 // the algorithm's messaging macros (AsgMessaging): the text is built and dropped
 #define ANA_MSG_LVL(x) do { std::ostringstream vp_msg_; vp_msg_ << x; } while (0)
 #define ANA_MSG_VERBOSE(x) ANA_MSG_LVL(x)
@@ -190,12 +190,32 @@ def exec_block(backend: str, r: Dict[str, Any]) -> Optional[str]:
     return None
 
 
+def template_defines(backend: str, r: Dict[str, Any]) -> str:
+    """`#define` blocks (with their continuation lines) of the rendered main source file: macros the template itself
+    introduces for the generated statements are part of the text that is compiled"""
+    fname, _ = MAIN_FILE[backend]
+    text = (r.get("files") or {}).get(fname) or ""
+    out, lines, i = [], text.splitlines(), 0
+    while i < len(lines):
+        if lines[i].lstrip().startswith("#define"):
+            blk = [lines[i]]
+            while blk[-1].rstrip().endswith("\\") and i + 1 < len(lines):
+                i += 1
+                blk.append(lines[i])
+            name = blk[0].split()[1].split("(")[0] if len(blk[0].split()) > 1 else ""
+            out.append(f"#undef {name}")
+            out += blk
+        i += 1
+    return "\n".join(out) + "\n"
+
+
 def program(backend: str, r: Dict[str, Any], events: List[Dict[str, Any]]) -> str:
     ns = NS[backend]
     src = header(backend)
     src += "\n// ---- class-level declarations\n" + "".join(x if isinstance(x, str) else " ".join(x) for x in r["class_decl"]) + "\n"
     # as in the templates: ATLAS initialize()/execute() return a StatusCode, CMS beginJob/analyze are void
     blk = exec_block(backend, r)
+    src += template_defines(backend, r)
     if backend == "atlas":
         src += "static StatusCode book_all() {\n" + "\n".join(r["book"]) + "\nreturn StatusCode::SUCCESS;\n}\n"
         src += "static StatusCode execute()\n" + (blk if blk is not None else "{\n" + "\n".join(r["query"]) + "\nreturn StatusCode::SUCCESS;\n}") + "\n"
@@ -223,7 +243,7 @@ def program(backend: str, r: Dict[str, Any], events: List[Dict[str, Any]]) -> st
         src += f"    case {k}: load_{k}(); break;\n"
     src += "  }\n"
     src += '  printf("EVENT %d\\n", k); g_status = 0;\n'
-    src += '  try { execute(); if (g_status) { printf("FAULT retrieveFailed\\n"); faulted = true; } } catch (const std::out_of_range&) { printf("FAULT loud\\n"); faulted = true; } catch (const std::runtime_error&) { printf("FAULT loud\\n"); faulted = true; }\n'
+    src += '  try { execute(); if (g_status) { printf("FAULT retrieveFailed\\n"); faulted = true; } } catch (const std::out_of_range&) { printf("FAULT loud\\n"); faulted = true; } catch (const std::runtime_error&) { printf("FAULT loud\\n"); faulted = true; } catch (const std::logic_error&) { printf("FAULT retrieveFailed\\n"); faulted = true; }\n'
     src += ("  g_store.banks.clear();\n" if backend == "atlas" else "  iEvent.banks.clear();\n")
     src += "  return faulted;\n}\n"
     src += f"int main(int argc, char** argv) {{\n  book_all();\n  const int n = {len(events)};\n"
